@@ -162,7 +162,7 @@ func runC08(cfg *runCfg) error {
 	id := 0
 	emit := func(cs *c08Case, o c08Obs, model string, expectSteps int) {
 		c := sh.File()
-		c.Printf("Eval vm_compute in (%d%%nat, %s, c08_holds %s %d %d %d %d %d, @nil nat).\n", id, model,
+		c.Printf("Eval vm_compute in (\"%d\"%%string, %s, c08_holds %s %d %d %d %d %d, @nil nat).\n", id, model,
 			coqBool(cs.Valid), expectSteps, o.Class, o.Steps, o.GoBefore, o.GoAfter)
 		key, _ := json.Marshal(cs)
 		doc.Dist[fmt.Sprintf("%s:class:%d", cs.Kind, o.Class)]++
